@@ -12,6 +12,7 @@ func init() {
 	vHarnesses["H_C17_copy"] = H_C17_copy
 	vHarnesses["H_C17_copy_named"] = H_C17_copy_named
 	vHarnesses["H_C17_copy_nan"] = H_C17_copy_nan
+	vHarnesses["H_C17_results"] = H_C17_results
 	vHarnesses["H_C17_footprint"] = H_C17_footprint
 }
 
@@ -47,6 +48,12 @@ func H_C17_pure_query() {
 		_, _ = Map(m).Root()
 	default:
 		_, _ = Map(m).NewMap("a:n", "b:n.y", k+":q")
+		// overlapping new paths on a receiver with a list nested directly in a list
+		nl := Map{"a": []interface{}{[]interface{}{map[string]interface{}{"p": k}, "s"}}, "b": "B"}
+		mk2 := vMark(map[string]interface{}(nl))
+		_, _ = nl.NewMap("a:x", "b:x.y")
+		_, _ = nl.NewMap("a[0]:x", "b:x.p")
+		vAssertUnchangedSince(mk2, "purity: NewMap leaves a receiver with nested lists as it was")
 	}
 	vAssertUnchangedSince(mark, "purity: a read-only query leaves its receiver deeply equal to what it was")
 	vCover("query")
@@ -306,4 +313,23 @@ func H_C17_copy_nan() {
 	} else {
 		vCover("refused")
 	}
+}
+
+// the result of one query is not disturbed by a later query on the same Map (decoded Maps:
+// their lists were grown by append and have spare capacity)
+func H_C17_results() {
+	vResetDecOpts()
+	c := vNondetString(1, 1, "XY")
+	m, err := NewMapXml([]byte("<r><g><k>1</k><k>2</k><k>3</k></g><g><k>" + c + "</k></g><h><k>9</k></h></r>"))
+	vAssert(err == nil, "results: decodes")
+	mark := vMark(map[string]interface{}(m))
+	p1 := []string{"r.g.k", "r.g.*", "r.*.k"}[vChoose(3)]
+	p2 := []string{"r.g.k", "r.g.*", "r.*.k", "r.h.k"}[vChoose(4)]
+	r1, e1 := m.ValuesForPath(p1)
+	keep := append([]interface{}{}, r1...)
+	r2, e2 := m.ValuesForPath(p2)
+	vAssert(e1 == nil && e2 == nil && len(r2) > 0, "results: queries succeed")
+	vAssert(vSameList(r1, keep), "results: the values returned by one query are not altered by a later query")
+	vAssertUnchangedSince(mark, "results: the receiver is unchanged")
+	vCover("results")
 }
